@@ -8,7 +8,9 @@ import (
 	"math/rand"
 	"strconv"
 	"strings"
+	"sync"
 	"time"
+	_ "time/tzdata"
 	"unicode/utf8"
 
 	"github.com/SAP/go-dblib/asetime"
@@ -43,6 +45,26 @@ import (
 //   t:<year>-<month>-<day>-<hour>-<min>-<sec>-<nsec>   (UTC; a negative year has a leading '-')
 
 var vle = binary.LittleEndian
+
+const valClauseZone = "a date/time value is encoded by its clock reading (the types carry no zone): the same reading in another location gives the same bytes"
+
+var (
+	valZonesOnce sync.Once
+	valZoneList  []*time.Location
+)
+
+// valZones: fixed offsets and zones with daylight saving rules (from the embedded time/tzdata)
+func valZones() []*time.Location {
+	valZonesOnce.Do(func() {
+		valZoneList = []*time.Location{time.FixedZone("plus0530", 5*3600+1800), time.FixedZone("minus11", -11*3600)}
+		for _, n := range []string{"Europe/Berlin", "America/New_York", "Australia/Lord_Howe", "America/Santiago"} {
+			if l, err := time.LoadLocation(n); err == nil {
+				valZoneList = append(valZoneList, l)
+			}
+		}
+	})
+	return valZoneList
+}
 
 func valDecNull() *asetypes.Decimal {
 	v, _ := asetypes.MONEYN.GoValue(vle, nil)
@@ -315,6 +337,20 @@ func valImpl(f []string) string {
 			}
 			if bs2, st2 := valBytes(t, v, l); st2 != "ok" || hx(bs2) != hx(bs) {
 				return "enc-not-repeatable"
+			}
+			// date/time types carry no zone: what is encoded is the clock reading. The same reading in
+			// other locations (fixed offsets, zones with daylight saving: on a transition day the time
+			// elapsed since local midnight is not the clock reading) must give the same bytes.
+			if tv, isTime := v.(time.Time); isTime {
+				for _, loc := range valZones() {
+					z := time.Date(tv.Year(), tv.Month(), tv.Day(), tv.Hour(), tv.Minute(), tv.Second(), tv.Nanosecond(), loc)
+					if z.Hour() != tv.Hour() || z.Minute() != tv.Minute() || z.Day() != tv.Day() {
+						continue // this reading does not exist there (skipped hour)
+					}
+					if bs2, st2 := valBytes(t, z, l); st2 != "ok" || hx(bs2) != hx(bs) {
+						return "enc-depends-on-location:" + strings.ReplaceAll(loc.String(), " ", "_")
+					}
+				}
 			}
 		}
 		if f[1] == "enc" {
@@ -618,6 +654,9 @@ func valOracle(line, out string) string {
 		if out == "enc-mutates-value" || out == "enc-not-repeatable" {
 			return "encoding a value leaves the value as it was and gives the same bytes every time"
 		}
+		if strings.HasPrefix(out, "enc-depends-on-location") {
+			return valClauseZone
+		}
 		if f[4] == "null" && out != "ok -" {
 			return "NULL encodes to zero length"
 		}
@@ -631,6 +670,9 @@ func valOracle(line, out string) string {
 	case "rt":
 		if out == "enc-mutates-value" || out == "enc-not-repeatable" {
 			return "encoding a value leaves the value as it was and gives the same bytes every time"
+		}
+		if strings.HasPrefix(out, "enc-depends-on-location") {
+			return valClauseZone
 		}
 		l, _ := valInt(f[3], 64)
 		if f[4] == "null" {
@@ -1005,6 +1047,10 @@ func valEachValue(tier string, rng *rand.Rand, emit func(t asetypes.DataType, l 
 		time.Date(1970, 1, 1, 0, 0, 0, 0, time.UTC), time.Date(2000, 2, 29, 0, 0, 0, 0, time.UTC), time.Date(2024, 2, 29, 0, 0, 0, 0, time.UTC),
 		time.Date(2079, 6, 5, 0, 0, 0, 0, time.UTC), time.Date(2079, 6, 6, 0, 0, 0, 0, time.UTC), time.Date(2079, 6, 7, 0, 0, 0, 0, time.UTC),
 		time.Date(9999, 12, 31, 0, 0, 0, 0, time.UTC)}
+	// days on which zones with daylight saving change their offset (Europe, North America, Lord Howe, Chile)
+	for _, d := range [][3]int{{2021, 3, 28}, {2021, 10, 31}, {2021, 3, 14}, {2021, 11, 7}, {2021, 4, 4}, {2021, 10, 3}, {2021, 9, 5}, {1999, 3, 28}, {2040, 10, 28}} {
+		days = append(days, time.Date(d[0], time.Month(d[1]), d[2], 0, 0, 0, 0, time.UTC))
+	}
 	nDays := 60
 	if thorough {
 		nDays = 3000
